@@ -569,6 +569,73 @@ def plan_C17(ctx):
     return system_family(ctx, catname="MCCat17", quick_idx="Quick17", relabel="C17", extra_inv="ScopedDiffer", sweep=False)
 
 
+def plan_C20(ctx):
+    ctx.build()
+    # the tool under test is built from the repository's working tree
+    tool = os.path.join(ctx.work, "plenctag")
+    r = vlib.run(["go", "build", "-o", tool, "./cmd/plenctag"], cwd=vlib.REPO, check=False)
+    if r.returncode != 0:
+        raise Broken("plenctag does not build:\n" + r.stderr[-1500:])
+    os.environ["PVH_PLENCTAG"] = tool
+    tmp = os.path.join(ctx.work, "tagtmp")
+    os.makedirs(tmp, exist_ok=True)
+    os.environ["PVH_TMP"] = tmp
+    structs, st = fam_codec.mc_generic(ctx.work, "MCTag", "  MaxFields = 2\n  Emit = TRUE\n", "Satisfiable Idempotent Frame")
+    ctx.add_mc(st)
+    import random
+    rnd = random.Random(ctx.seed)
+    by = collections.defaultdict(list)
+    for c in structs:
+        by[json.dumps(c["flags"], sort_keys=True)].append(c["fields"])
+    wh = ["top", "generic", "local", "nested"]
+    files = []
+    for fl, ss in sorted(by.items()):
+        if ctx.quick:                      # every 1-field struct and a seeded sample of the 2-field ones
+            ones = [x for x in ss if len(x) == 1]
+            twos = [x for x in ss if len(x) == 2]
+            rnd.shuffle(twos)
+            ss = ones + twos[:1500]
+        for i in range(0, len(ss), 50):
+            chunk = ss[i:i + 50]
+            files.append({"ev": "tag", "flags": json.loads(fl), "structs": [{"where": wh[(i // 50 + j) % 4], "fields": f} for j, f in enumerate(chunk)]})
+    # larger random structs: 3..8 fields, malformed tags now and then
+    variants = [c["fields"][0] for c in structs if len(c["fields"]) == 1]
+    nrand = 150 if ctx.quick else 3000
+    for n in range(nrand):
+        ss = []
+        for j in range(rnd.randint(1, 12)):
+            fs = [json.loads(json.dumps(rnd.choice(variants))) for _ in range(rnd.randint(3, 8))]
+            while sum(1 for f in fs if not f["names"]) > 2:      # two embeddable types exist
+                fs.remove(next(f for f in fs if not f["names"]))
+            used = set()
+            for f in fs:                   # existing indexes are unique (valid input); indexes are scattered
+                if f["plenc"]["form"] == "index":
+                    v = rnd.choice([x for x in (1, 2, 3, 5, 8, 13, 40, 300) if x not in used])
+                    used.add(v)
+                    f["plenc"]["idx"] = v
+            if rnd.random() < 0.03:
+                fs[0]["malformed"] = True
+            ss.append({"where": rnd.choice(wh), "fields": fs})
+        files.append({"ev": "tag", "flags": {"json": rnd.random() < 0.5, "sql": rnd.random() < 0.7, "private": rnd.random() < 0.7}, "structs": ss})
+    log("design check MCTag: %d states, %d abstract structs; %d files (%d random)" % (st["distinct"], len(structs), len(files), nrand))
+    for c in files:
+        c["cfg"] = fam_codec.CFGS["default"]
+    p1 = os.path.join(ctx.work, "tag_cases.ndjson")
+    fam_codec.write_cases(files, p1, 0)
+    ctx.case_files = [p1]
+    trace = fam_codec.run_cases(ctx.pvh, p1, ctx.work, "tag", budget="60s")
+    verdicts, jst = vlib.judge(ctx.work, "TraceTag", trace, ctx.env, ctx.open, tag="main")
+    rule = ("abstract structs of up to 2 fields over 96 field variants (exported / unexported / two names / embedded x no / '-' / numeric plenc tag x "
+            "sql:'-' / json:'-' / json name x another tag key) x the 8 combinations of -json -sql -private, rendered 50 to a file as top-level, generic, "
+            "function-local and nested anonymous structs; plus %d random files of structs with 3..8 fields, scattered existing indexes and malformed tags. "
+            "For every file: write mode, stdout mode, second run, gofmt, go/types, plenc.CodecForType on every tagged struct. distinct = distinct files; "
+            "non-trivial = the file has a field without a plenc tag" % nrand)
+    return finish(ctx, "TraceTag", verdicts, [trace], jst, rule, [
+        "only files expressible in the abstract struct model are generated (field lists, names, tags, struct positions); comments and code outside structs are "
+        "constant text that must survive unchanged",
+        "pre-existing duplicate indexes are the user's: plenc's verdict is only demanded for structs whose existing tags were valid"])
+
+
 def plan_C06(ctx):
     return system_family(ctx)
 
@@ -618,11 +685,12 @@ def plan_C12(ctx):
     return codec_family(ctx, 6000, 200000, mc_cfgs_quick=("both", "pa"), rnd_cfg="mix")
 
 
-PLANS = {"C19": plan_C19, "C17": plan_C17, "C16": plan_C16, "C13": plan_C13, "C15": plan_C15, "C08": plan_C08, "C04": plan_C04, "C06": plan_C06, "C11": plan_C11, "C03": plan_C03, "C10": plan_C10, "C18": plan_C18, "C12": plan_C12, "C01": plan_C01, "C02": plan_C02, "C05": plan_C05, "C09": plan_C09, "C14": plan_C14}
+PLANS = {"C20": plan_C20, "C19": plan_C19, "C17": plan_C17, "C16": plan_C16, "C13": plan_C13, "C15": plan_C15, "C08": plan_C08, "C04": plan_C04, "C06": plan_C06, "C11": plan_C11, "C03": plan_C03, "C10": plan_C10, "C18": plan_C18, "C12": plan_C12, "C01": plan_C01, "C02": plan_C02, "C05": plan_C05, "C09": plan_C09, "C14": plan_C14}
 MODULES = {k: "TraceCodec" for k in PLANS}
 MODULES["C18"] = "TracePrim"
 MODULES["C03"] = MODULES["C10"] = "TraceDecode"
 MODULES["C06"] = MODULES["C11"] = MODULES["C17"] = MODULES["C19"] = "TraceSystem"
 MODULES["C04"] = "TraceHostile"
+MODULES["C20"] = "TraceTag"
 MODULES["C08"] = "TraceTypes"
 MODULES["C15"] = "TraceJSONOut"
